@@ -6,8 +6,8 @@ namespace Driver.C08
 open EnvM Driver.EnvCommon
 
 def processLine (line : String) : String :=
-  processWith (fun i tr =>
-    let ok := specC08 i.hooks i.reqs tr
-    (ok, if !ok && !noLaterSameMomentAwait i.hooks then "await_weight_not_visited" else "-")) line
+  -- no excluded hypothesis: the class of the former finding `await_weight_not_visited` (a call awaiting a later
+  -- weight of its own trigger moment) is judged like every other input since the repair
+  processWith (fun i tr => (specC08 i.hooks i.reqs tr, "-")) line
 
 end Driver.C08
